@@ -31,11 +31,15 @@ EXTENDS Ctxt
 
 CONSTANTS
     MaxSpans,
-    WithIncoming,   \* BOOLEAN: offer Frame::push of incoming trace/span ids
+    IncomingKinds,  \* subset of {"both", "trace", "span"}: Frame::push of incoming trace id + span id,
+                    \* of a trace id alone, of a span id alone ({}: none)
     WithLazy        \* BOOLEAN: offer async-fn spans (begin happens at the first poll)
 
 Spans == 1..MaxSpans
-INC == MaxSpans + 1           \* logical context "the incoming ids"
+INC == MaxSpans + 1           \* logical context "the incoming trace id and span id"
+INCT == MaxSpans + 2          \* logical context "an incoming trace id, no span id"
+INCS == MaxSpans + 3          \* logical context "an incoming span id, no trace id"
+IsInc(x) == x \in {INC, INCT, INCS}
 IN_TR == 2 * MaxSpans + 1     \* incoming trace id
 IN_SP == 2 * MaxSpans + 2     \* incoming span id
 DrawTrace(i) == 2 * i - 1
@@ -44,7 +48,7 @@ DrawSpan(i) == 2 * i
 VARIABLES
     sp,       \* span i: [st, en, ids (level B: what new_child computed), encl (level A)]
     fsp,      \* frame -> span whose guard travels with the frame (0: none)
-    ctxof,    \* frame -> level-A logical span context: 0 | span | INC
+    ctxof,    \* frame -> level-A logical span context: 0 | span | INC | INCT | INCS
     lazy,     \* task -> TRUE when it is an async-fn span that has not been polled yet
     em        \* records emitted by the last step
 
@@ -58,12 +62,12 @@ NoSpan == [st |-> "none", en |-> FALSE, ids |-> <<0, 0, 0>>, encl |-> 0]
 LogicalCtx(c, co, t) == IF c.stk[t] = <<>> THEN 0 ELSE co[Top(c, t).f]
 
 RECURSIVE A_Trace(_, _)
-A_Trace(s, x) == IF x = 0 THEN 0
-                 ELSE IF x = INC THEN IN_TR
-                 ELSE IF s[x].encl = 0 THEN DrawTrace(x)      \* outermost span: its own trace
-                 ELSE A_Trace(s, s[x].encl)
-A_Id(x) == IF x = 0 THEN 0 ELSE IF x = INC THEN IN_SP ELSE DrawSpan(x)
-A_Parent(s, x) == IF x = 0 \/ x = INC THEN 0 ELSE A_Id(s[x].encl)
+A_Trace(s, x) == IF x = 0 \/ x = INCS THEN 0
+                 ELSE IF x = INC \/ x = INCT THEN IN_TR
+                 ELSE IF s[x].encl = 0 \/ s[x].encl = INCS THEN DrawTrace(x)   \* outermost span: its own trace
+                 ELSE A_Trace(s, s[x].encl)                                   \* the outermost span's / the incoming trace id
+A_Id(x) == IF x = 0 \/ x = INCT THEN 0 ELSE IF x = INC \/ x = INCS THEN IN_SP ELSE DrawSpan(x)
+A_Parent(s, x) == IF x = 0 \/ IsInc(x) THEN 0 ELSE A_Id(s[x].encl)
 A_Ids(s, x) == <<A_Trace(s, x), A_Id(x), A_Parent(s, x)>>
 
 SObs(c, s, co) == [t \in Threads |-> A_Ids(s, LogicalCtx(c, co, t))]
@@ -226,16 +230,22 @@ Event(t) ==
     /\ UNCHANGED <<cx, sp, fsp, ctxof, lazy>>
     /\ SLog([op |-> "event", t |-> t])
 
-\* Frame::push(ctxt, incoming trace id + span id) - typed, hex or integer (the harness varies)
-Incoming(t) ==
-    /\ WithIncoming
+\* Frame::push(ctxt, incoming ids) - a trace id and a span id, a trace id alone, or a span id
+\* alone; typed, hex or integer (the harness varies the encoding)
+IncProps(kind) == CASE kind = "both" -> <<IN_TR, IN_SP, 0>>
+                    [] kind = "trace" -> <<IN_TR, 0, 0>>
+                    [] OTHER -> <<0, IN_SP, 0>>
+IncCtx(kind) == CASE kind = "both" -> INC [] kind = "trace" -> INCT [] OTHER -> INCS
+
+Incoming(t, kind) ==
     /\ FreeFrames(cx) # {}
     /\ LogicalCtx(cx, ctxof, t) = 0      \* incoming ids arrive at the edge of the service
-    /\ cx' = CxOpen(cx, t, 1, "push", <<IN_TR, IN_SP, 0>>)
-    /\ ctxof' = [ctxof EXCEPT ![NextFrame(cx)] = INC]
+    /\ cx' = CxOpen(cx, t, 1, "push", IncProps(kind))
+    /\ ctxof' = [ctxof EXCEPT ![NextFrame(cx)] = IncCtx(kind)]
     /\ em' = <<>>
     /\ UNCHANGED <<sp, fsp, lazy>>
-    /\ SLog([op |-> "incoming", t |-> t, f |-> NextFrame(cx), ids |-> <<IN_TR, IN_SP>>])
+    /\ SLog([op |-> "incoming", t |-> t, f |-> NextFrame(cx), kind |-> kind,
+             ids |-> <<IncProps(kind)[1], IncProps(kind)[2]>>])
 
 \* Frame::current: capture the ambient ids to continue elsewhere
 Current(t) ==
@@ -259,7 +269,7 @@ SNext ==
     \/ \E t \in Threads : SYield(t)
     \/ \E t \in Threads : SComplete(t)
     \/ \E t \in Threads : Event(t)
-    \/ \E t \in Threads : Incoming(t)
+    \/ \E t \in Threads, kind \in IncomingKinds : Incoming(t, kind)
     \/ \E t \in Threads : Current(t)
 
 SSpec == SInit /\ [][SNext]_svars
@@ -275,8 +285,10 @@ AmbientIds == \A t \in Threads : cx.act[t][1] = A_Ids(sp, LogicalCtx(cx, ctxof, 
 
 \* the root of the tree a logical context belongs to
 RECURSIVE RootOf(_)
-RootOf(x) == IF x = 0 \/ x = INC THEN x ELSE IF sp[x].encl = 0 THEN x ELSE RootOf(sp[x].encl)
-TraceOfRoot(x) == IF x = INC THEN IN_TR ELSE IF x = 0 THEN 0 ELSE sp[x].ids[1]
+RootOf(x) == IF x = 0 \/ IsInc(x) THEN x
+             ELSE IF sp[x].encl = 0 \/ sp[x].encl = INCS THEN x      \* nothing gives it a trace id: it starts one
+             ELSE RootOf(sp[x].encl)
+TraceOfRoot(x) == IF x = INC \/ x = INCT THEN IN_TR ELSE IF x = 0 \/ x = INCS THEN 0 ELSE sp[x].ids[1]
 
 \* every record emitted inside a tree carries the trace id of the tree's outermost span
 \* (or the incoming trace id)
@@ -287,8 +299,9 @@ OneTrace ==
 \* on the span itself and on the record it emits
 ParentIsEnclosing ==
     /\ \A i \in Started : sp[i].ids[3] = (IF sp[i].encl = 0 THEN 0
-                                          ELSE IF sp[i].encl = INC THEN IN_SP ELSE sp[sp[i].encl].ids[2])
-    /\ \A i \in Started : sp[i].ids[1] = (IF sp[i].encl = 0 THEN DrawTrace(i) ELSE TraceOfRoot(RootOf(sp[i].encl)))
+                                          ELSE IF IsInc(sp[i].encl) THEN A_Id(sp[i].encl) ELSE sp[sp[i].encl].ids[2])
+    /\ \A i \in Started : sp[i].ids[1] = (IF sp[i].encl = 0 \/ sp[i].encl = INCS THEN DrawTrace(i)
+                                          ELSE TraceOfRoot(RootOf(sp[i].encl)))
     /\ \A i \in Started : sp[i].encl \in Spans => sp[sp[i].encl].en
     /\ \A n \in 1..Len(em) : em[n].kind = "span" => em[n].ids = sp[em[n].i].ids
 
@@ -296,14 +309,14 @@ ParentIsEnclosing ==
 EventCarriesInnermost ==
     \A n \in 1..Len(em) : em[n].kind = "event" =>
         em[n].ids = (IF em[n].a = 0 THEN <<0, 0, 0>>
-                     ELSE IF em[n].a = INC THEN <<IN_TR, IN_SP, 0>> ELSE sp[em[n].a].ids)
+                     ELSE IF IsInc(em[n].a) THEN A_Ids(sp, em[n].a) ELSE sp[em[n].a].ids)
 
 \* span ids are non-zero and distinct, trace ids of distinct trees are distinct
 IdsDistinct ==
     /\ \A i \in Started : sp[i].ids[2] # 0 /\ sp[i].ids[1] # 0 /\ sp[i].ids[2] # IN_SP
     /\ \A i, j \in Started : i # j => sp[i].ids[2] # sp[j].ids[2]
-    /\ \A i, j \in Started : (i # j /\ sp[i].encl = 0 /\ sp[j].encl = 0) => sp[i].ids[1] # sp[j].ids[1]
-    /\ \A i \in Started : sp[i].encl = 0 => sp[i].ids[1] # IN_TR
+    /\ \A i, j \in Started : (i # j /\ sp[i].encl \in {0, INCS} /\ sp[j].encl \in {0, INCS}) => sp[i].ids[1] # sp[j].ids[1]
+    /\ \A i \in Started : sp[i].encl \in {0, INCS} => sp[i].ids[1] # IN_TR
 
 \* when a span ends (or its task suspends) the ambient ids are those from before it was entered
 Revert == ExitRestores
